@@ -569,7 +569,8 @@ class Executor(object):
                    + "{ind}{ind}The command was not found.\n"
                    + "{ind}Return code: %d\n"
                    + "{ind}{ind}%s.\n") % (
-                       run_id.benchmark.suite.executor.name, return_code, output.strip())
+                       escape_braces(run_id.benchmark.suite.executor.name), return_code,
+                       escape_braces(output.strip()))
             self.ui.error(msg, run_id, cmdline, location, env)
             run_id.report_run_failed(cmdline, return_code, output)
             run_id.executable_missing = True
